@@ -17,7 +17,9 @@
 """This module contains serialization and deserialization of calibration state with Pandas."""
 from __future__ import annotations
 
+import hashlib
 import json
+import os
 import pickle  # nosec B403
 from pathlib import Path
 from typing import TYPE_CHECKING
@@ -36,6 +38,54 @@ if TYPE_CHECKING:
     from black_it.loss_functions.base import BaseLoss
     from black_it.schedulers.base import BaseScheduler
 
+CHECKPOINT_DATA_FILES = (
+    "scheduler_pickled.pickle",
+    "loss_function_pickled.pickle",
+    "calibration_results.csv",
+    "series_samp.h5",
+)
+"""
+The files of a checkpoint other than 'calibration_params.json'.
+
+'calibration_params.json' is the commit record of a checkpoint: it is written
+last, atomically, and stores the SHA-256 digest of each of these files, so that
+a checkpoint whose writing was interrupted is detected when it is loaded.
+"""
+
+
+class InconsistentCheckpointError(ValueError):
+    """Exception raised when the files of a checkpoint do not belong to one complete save."""
+
+
+def _file_digest(file_path: Path) -> str:
+    """Compute the SHA-256 digest of a file."""
+    digest = hashlib.sha256()
+    with file_path.open("rb") as fb:
+        for chunk in iter(lambda: fb.read(1 << 20), b""):
+            digest.update(chunk)
+    return digest.hexdigest()
+
+
+def _commit_checkpoint(checkpoint_path: Path, calibration_params: dict) -> None:
+    """Write 'calibration_params.json', the file that commits a checkpoint.
+
+    It is written after all the other files, with their digests, under a temporary
+    name, and then moved into place atomically. Until then the folder either still
+    holds the previous checkpoint or fails the digest check when it is loaded.
+
+    Args:
+        checkpoint_path: the folder where the data are stored
+        calibration_params: the content of the json file, without the digests
+    """
+    calibration_params["files_sha256"] = {
+        file_name: _file_digest(checkpoint_path / file_name)
+        for file_name in CHECKPOINT_DATA_FILES
+    }
+    temporary_filepath = checkpoint_path / "calibration_params.json.tmp"
+    with temporary_filepath.open("w") as f:
+        json.dump(calibration_params, f, cls=NumpyArrayEncoder)
+    os.replace(temporary_filepath, checkpoint_path / "calibration_params.json")
+
 
 def load_calibrator_state(checkpoint_path: PathLike, _code_state_version: int) -> tuple:
     """Load calibrator data from a given folder.
@@ -50,6 +100,17 @@ def load_calibrator_state(checkpoint_path: PathLike, _code_state_version: int) -
     checkpoint_path = Path(checkpoint_path)
     with (checkpoint_path / "calibration_params.json").open() as f:
         cp = json.load(f)
+
+    # a save interrupted before its last step leaves files that do not match the
+    # digests recorded in the json file: refuse to load such a mixture
+    # (checkpoints written by older versions carry no digests and are not checked)
+    for file_name, expected_digest in cp.get("files_sha256", {}).items():
+        if _file_digest(checkpoint_path / file_name) != expected_digest:
+            msg = (
+                f"the checkpoint in '{checkpoint_path}' is inconsistent: '{file_name}' does not "
+                "belong to the save recorded in 'calibration_params.json' (interrupted save?)"
+            )
+            raise InconsistentCheckpointError(msg)
 
     cr = pd.read_csv(
         checkpoint_path / "calibration_results.csv",
@@ -193,9 +254,7 @@ def save_calibrator_state(  # noqa: PLR0913
     }
     if samplers_id_table is not None:
         calibration_params["samplers_id_table"] = dict(samplers_id_table)
-    # save calibration parameters in a json dictionary
-    with (checkpoint_path / "calibration_params.json").open("w") as f:
-        json.dump(calibration_params, f, cls=NumpyArrayEncoder)
+    # the calibration parameters are saved in a json dictionary after all the other files (see below)
 
     # save instantiated scheduler and loss functions
     with (checkpoint_path / "scheduler_pickled.pickle").open("wb") as fb:
@@ -236,7 +295,7 @@ def save_calibrator_state(  # noqa: PLR0913
             # Write the appended portion
             data[nb_rows:new_num_rows] = to_append
 
-        return
+        return _commit_checkpoint(checkpoint_path, calibration_params)
 
     # If the file does not exist, create it and store the entire dataset in one shot.
     with h5py.File(series_filepath, mode="w") as series_file:
@@ -251,4 +310,4 @@ def save_calibrator_state(  # noqa: PLR0913
             dtype="float64",
         )
 
-    return
+    return _commit_checkpoint(checkpoint_path, calibration_params)
